@@ -1,4 +1,5 @@
 import VncModel.Policy.Lemmas
+import VncModel.Policy.ArgsLemmas
 /-!
 # C14 — Shared / non-shared session policy is enforced
 
@@ -290,5 +291,196 @@ theorem parseArgs_spec (cfg : Cfg) (args : List String) :
         · have := ih cfg
           simp only [h1, h2, h3, if_false]
           simp_all [List.contains_cons, eq_comm]
+
+end VncModel.Props.C14
+
+namespace VncModel.Props.C14
+open VncModel.Policy VncModel.Gen.C14
+
+/-! ## The command-line path, faithfully: `rfbProcessArguments` with its whole option table
+
+`processArgs` (Policy/Args.lean) follows the C loop token by token; its option table is
+regenerated from cargs.c on every run.  The theorem below is its functional specification for
+every command line that is a sequence of well-formed segments, for every set of registered
+extensions (`ext` arbitrary): flags take effect wherever they stand, an option's value and an
+extension's parameters are never mistaken for options, nothing else is, and exactly the unknown
+tokens are left for the application. -/
+
+theorem processArgs_segments (ext : Ext) (segs : List Seg) (h : AllOk ext segs)
+    (cfg : Cfg) (kept : List String) :
+    processArgs ext cfg kept (flatten segs) =
+      ⟨segs.foldl applySeg cfg, kept.reverse ++ leftOf segs, true⟩ := by
+  induction segs generalizing cfg kept with
+  | nil => simp [flatten, processArgs, leftOf]
+  | cons s ss ih =>
+    obtain ⟨hs, hss⟩ := h
+    cases s with
+    | flag a =>
+      obtain ⟨h1, h2, h3⟩ := hs
+      simp only [flatten, Seg.toks, List.cons_append, List.nil_append]
+      rw [processArgs.eq_def]
+      simp only [h1, h2, h3, if_false, if_true]
+      rw [ih hss]
+      simp [applySeg, leftOf]
+    | value a v =>
+      obtain ⟨h1, h2⟩ := hs
+      simp only [flatten, Seg.toks, List.cons_append, List.nil_append]
+      rw [processArgs.eq_def]
+      simp only [h1, h2, if_false, if_true]
+      rw [ih hss]
+      simp [applySeg, leftOf]
+    | ext a more =>
+      obtain ⟨hk, he⟩ := hs
+      have h1 : a ∉ argHelp := fun h => hk (Or.inl h)
+      have h2 : a ∉ argValue := fun h => hk (Or.inr (Or.inl h))
+      have h3 : a ∉ argFlag := fun h => hk (Or.inr (Or.inr h))
+      simp only [flatten, Seg.toks, List.cons_append]
+      rw [processArgs.eq_def]
+      have hne : ext (a :: (more ++ flatten ss)) ≠ 0 := by rw [he]; omega
+      simp only [h1, h2, h3, hne, if_false]
+      rw [he]
+      have hd : (a :: (more ++ flatten ss)).drop (more.length + 1) = flatten ss := by
+        simp [List.drop_append]
+      rw [hd, ih hss]
+      simp [applySeg, leftOf]
+    | other a =>
+      obtain ⟨hk, he⟩ := hs
+      have h1 : a ∉ argHelp := fun h => hk (Or.inl h)
+      have h2 : a ∉ argValue := fun h => hk (Or.inr (Or.inl h))
+      have h3 : a ∉ argFlag := fun h => hk (Or.inr (Or.inr h))
+      simp only [flatten, Seg.toks, List.cons_append, List.nil_append]
+      rw [processArgs.eq_def]
+      simp only [h1, h2, h3, he, if_false, if_true]
+      rw [ih hss]
+      simp [applySeg, leftOf]
+
+/-- **the three sharing switches after a well-formed command line**: each is set iff it was set
+before or its flag stands at an option position — also directly behind an extension's option. -/
+theorem args_sharing_switches (ext : Ext) (segs : List Seg) (h : AllOk ext segs) (cfg : Cfg) :
+    let r := processArgs ext cfg [] (flatten segs)
+    r.ok = true ∧
+    r.cfg.always = (cfg.always || segs.any (isFlag argAlwaysShared)) ∧
+    r.cfg.never = (cfg.never || segs.any (isFlag argNeverShared)) ∧
+    r.cfg.dont = (cfg.dont || segs.any (isFlag argDontDisconnect)) := by
+  simp only [processArgs_segments ext segs h]
+  exact ⟨trivial, foldl_applySeg_always segs cfg, foldl_applySeg_never segs cfg,
+    foldl_applySeg_dont segs cfg⟩
+
+/-- non-vacuity, on the extension the harness registers: `-chan 7 -nevershared -desktop -alwaysshared x`
+is well formed; `-nevershared` behind the extension's option counts, `-alwaysshared` as the value
+of `-desktop` does not -/
+example : AllOk demoExt [.ext "-chan" ["7"], .flag "-nevershared", .value "-desktop" "-alwaysshared",
+    .other "x"] := by
+  simp [AllOk, SegOk, known, flatten, Seg.toks, demoExt, argHelp, argValue, argFlag]
+
+/-! ## Where a client record comes from: the reverse-connection flag is history, not input -/
+
+/-- in every history of arrivals — inbound connections, successful and FAILED reverse connections
+(connect error, or the new-client hook refusing), ClientInits, closes, reaping — a record is
+flagged `reverseConnection` only if a successful reverse connection created a record with its id,
+and unflagged only if an inbound connection did -/
+theorem origin_of_flag (cfg : Cfg) (evs : List Ev) :
+    ∀ c ∈ run cfg [] (opsOf evs),
+      (c.reverse = true → c.id ∈ reverseIds evs) ∧ (c.reverse = false → c.id ∈ inboundIds evs) := by
+  suffices h : ∀ (evs0 evs : List Ev) (cs : List Client),
+      (∀ c ∈ cs, (c.reverse = true → c.id ∈ reverseIds evs0) ∧
+                 (c.reverse = false → c.id ∈ inboundIds evs0)) →
+      ∀ c ∈ run cfg cs (opsOf evs),
+        (c.reverse = true → c.id ∈ reverseIds (evs0 ++ evs)) ∧
+        (c.reverse = false → c.id ∈ inboundIds (evs0 ++ evs)) by
+    simpa using h [] evs [] (by simp)
+  intro evs0 evs
+  induction evs generalizing evs0 with
+  | nil => intro cs h; simpa [opsOf, run] using h
+  | cons e es ih =>
+    intro cs h
+    -- one event first
+    have hstep : ∀ c ∈ run cfg cs e.ops,
+        (c.reverse = true → c.id ∈ reverseIds (evs0 ++ [e])) ∧
+        (c.reverse = false → c.id ∈ inboundIds (evs0 ++ [e])) := by
+      have hmono_r : ∀ i, i ∈ reverseIds evs0 → i ∈ reverseIds (evs0 ++ [e]) := by
+        intro i hi; exact reverseIds_append_left evs0 [e] i hi
+      have hmono_i : ∀ i, i ∈ inboundIds evs0 → i ∈ inboundIds (evs0 ++ [e]) := by
+        intro i hi; exact inboundIds_append_left evs0 [e] i hi
+      cases e with
+      | reverseFailed id =>
+        intro c hc
+        have := h c (by simpa [Ev.ops, run] using hc)
+        exact ⟨fun hr => hmono_r _ (this.1 hr), fun hr => hmono_i _ (this.2 hr)⟩
+      | inbound id =>
+        intro c hc
+        simp only [Ev.ops, run, List.foldl_cons, List.foldl_nil] at hc
+        rcases step_origin cfg cs _ c hc with ⟨c0, h0, hid, hrv⟩ | heq
+        · have := h c0 h0
+          rw [hid, hrv] at this
+          exact ⟨fun hr => hmono_r _ (this.1 hr), fun hr => hmono_i _ (this.2 hr)⟩
+        · injection heq with h1 h2
+          refine ⟨fun hr => (by rw [← h2] at hr; cases hr), fun _ => ?_⟩
+          rw [← h1]; exact inboundIds_append_right evs0 [.inbound id] id (by simp [inboundIds])
+      | reverseOk id =>
+        intro c hc
+        simp only [Ev.ops, run, List.foldl_cons, List.foldl_nil] at hc
+        rcases step_origin cfg cs _ c hc with ⟨c0, h0, hid, hrv⟩ | heq
+        · have := h c0 h0
+          rw [hid, hrv] at this
+          exact ⟨fun hr => hmono_r _ (this.1 hr), fun hr => hmono_i _ (this.2 hr)⟩
+        · injection heq with h1 h2
+          refine ⟨fun _ => ?_, fun hr => (by rw [← h2] at hr; cases hr)⟩
+          rw [← h1]; exact reverseIds_append_right evs0 [.reverseOk id] id (by simp [reverseIds])
+      | init i sh =>
+        intro c hc
+        simp only [Ev.ops, run, List.foldl_cons, List.foldl_nil] at hc
+        rcases step_origin cfg cs _ c hc with ⟨c0, h0, hid, hrv⟩ | heq
+        · have := h c0 h0
+          rw [hid, hrv] at this
+          exact ⟨fun hr => hmono_r _ (this.1 hr), fun hr => hmono_i _ (this.2 hr)⟩
+        · cases heq
+      | peerClose i =>
+        intro c hc
+        simp only [Ev.ops, run, List.foldl_cons, List.foldl_nil] at hc
+        rcases step_origin cfg cs _ c hc with ⟨c0, h0, hid, hrv⟩ | heq
+        · have := h c0 h0
+          rw [hid, hrv] at this
+          exact ⟨fun hr => hmono_r _ (this.1 hr), fun hr => hmono_i _ (this.2 hr)⟩
+        · cases heq
+      | reap =>
+        intro c hc
+        simp only [Ev.ops, run, List.foldl_cons, List.foldl_nil] at hc
+        rcases step_origin cfg cs _ c hc with ⟨c0, h0, hid, hrv⟩ | heq
+        · have := h c0 h0
+          rw [hid, hrv] at this
+          exact ⟨fun hr => hmono_r _ (this.1 hr), fun hr => hmono_i _ (this.2 hr)⟩
+        · cases heq
+    have := ih (evs0 ++ [e]) (run cfg cs e.ops) hstep
+    have hrun : run cfg cs (opsOf (e :: es)) = run cfg (run cfg cs e.ops) (opsOf es) := by
+      simp [opsOf, run, List.foldl_append]
+    rw [hrun]
+    simpa using this
+
+/-- **(4′) never-shared, by origin**: on a never-shared screen, among the clients that came in
+through the listening socket at most one is fully connected — whatever reverse connections were
+attempted, failed or succeeded in between (ids of inbound and reverse arrivals distinct) -/
+theorem never_shared_at_most_one_inbound (cfg : Cfg) (hn : cfg.never = true) (evs : List Ev)
+    (hdis : ∀ i ∈ inboundIds evs, i ∉ reverseIds evs) :
+    ((run cfg [] (opsOf evs)).filter
+      (fun c => c.isOpen && c.st == .normal && (inboundIds evs).contains c.id)).length ≤ 1 := by
+  refine Nat.le_trans ?_ (never_shared_at_most_one cfg hn (opsOf evs))
+  rw [servedInbound_eq, ← List.countP_eq_length_filter, ← List.countP_eq_length_filter]
+  apply List.countP_mono_left
+  intro c hc hp
+  simp only [Bool.and_eq_true, List.contains_iff_mem] at hp
+  have ho := origin_of_flag cfg evs c hc
+  have hrev : c.reverse = false := by
+    cases hr : c.reverse
+    · rfl
+    · exact absurd (ho.1 hr) (hdis _ (by simpa using hp.2))
+  simp [served, hp.1.1, hp.1.2, hrev]
+
+/-- non-vacuity: after a failed reverse connection two inbound clients arrive on a never-shared
+screen; the second takes over (it also displaces the reverse connection), one is served -/
+example : ((run ⟨false, true, false⟩ [] (opsOf
+    [.reverseFailed 9, .inbound 0, .init 0 true, .reverseOk 5, .init 5 true, .inbound 1, .init 1 true])).filter
+      (fun c => c.isOpen && c.st == .normal)).map (fun c => (c.id, c.reverse)) = [(1, false)] := by
+  decide
 
 end VncModel.Props.C14
